@@ -1286,8 +1286,52 @@ func checkC09(c *Ctx, r *Report, tier string) {
 				sel = s
 			}
 		})
+		// the collector: this function, or a helper it delegates the collecting to (handed the channels and the count, its
+		// results returned as they are)
+		cf := f
+		var via *ssa.Call
+		if sel == nil {
+			eachInstr(f, func(i ssa.Instruction) {
+				cl, ok := i.(*ssa.Call)
+				if !ok || cl.Call.StaticCallee() == nil || !modLocal(cl.Call.StaticCallee()) || len(cl.Call.StaticCallee().Blocks) == 0 {
+					return
+				}
+				h := cl.Call.StaticCallee()
+				var hs *ssa.Select
+				eachInstr(h, func(j ssa.Instruction) {
+					if s, ok := j.(*ssa.Select); ok {
+						hs = s
+					}
+				})
+				passesChan := false
+				for _, a := range cl.Call.Args {
+					if _, isCh := a.Type().Underlying().(*types.Chan); isCh {
+						passesChan = true
+					}
+				}
+				if hs != nil && passesChan {
+					cf, sel, via = h, hs, cl
+				}
+			})
+		}
 		if sel == nil {
 			continue // delegations
+		}
+		// a value of the collector expressed in the search function: parameters of a helper map to the call's arguments
+		inCaller := func(v ssa.Value) ssa.Value {
+			if via == nil {
+				return v
+			}
+			for _, o := range origins(v, originOpt{}) {
+				if p, ok := o.(*ssa.Parameter); ok {
+					for k, q := range cf.Params {
+						if q == p && k < len(via.Call.Args) {
+							return via.Call.Args[k]
+						}
+					}
+				}
+			}
+			return v
 		}
 		// spawn sites
 		var gos []*ssa.Go
@@ -1331,9 +1375,9 @@ func checkC09(c *Ctx, r *Report, tier string) {
 		r.OK("C09.R2", fn, "spawn", c.Pos(g.Pos()), "one worker per element of "+describeVal(coll))
 		// collector bound
 		okBound := false
-		for _, ifi := range allIfs(f) {
+		for _, ifi := range allIfs(cf) {
 			if b, ok := ifi.Cond.(*ssa.BinOp); ok && b.Op == token.LSS && isLoopCounter(b.X) {
-				if cl, ok := b.Y.(*ssa.Call); ok && callID(&cl.Call).is("builtin", "", "len") && sameCollection(cl.Call.Args[0], coll) {
+				if cl, ok := inCaller(b.Y).(*ssa.Call); ok && callID(&cl.Call).is("builtin", "", "len") && sameCollection(cl.Call.Args[0], coll) {
 					// the select is inside this loop
 					if guardedBy(sel.Block(), ifi, true) {
 						okBound = true
@@ -1371,7 +1415,7 @@ func checkC09(c *Ctx, r *Report, tier string) {
 			if dc, ok := st.Chan.(*ssa.Call); !ok || callID(&dc.Call).Name != "Done" {
 				nMsgArms++
 			}
-			for _, o := range origins(st.Chan, originOpt{}) {
+			for _, o := range origins(inCaller(st.Chan), originOpt{}) {
 				if closed[o.Name()] {
 					nClosedRecv++
 				}
@@ -1391,7 +1435,23 @@ func checkC09(c *Ctx, r *Report, tier string) {
 		}
 		// R4: the slice returned is the one every result arm appends to
 		okApp := false
-		for _, rt := range returnsOf(f) {
+		if via != nil {
+			// the search function hands the helper's results on unchanged
+			for _, rt := range returnsOf(f) {
+				for _, res := range rt.Results {
+					if ex, ok := res.(*ssa.Extract); ok && ex.Tuple == ssa.Value(via) {
+						continue
+					}
+					if cst, ok := res.(*ssa.Const); ok && cst.Value == nil {
+						continue
+					}
+					if instrDominates(via, rt.Return) {
+						r.Bad("C09.R4", fn, "collector-results-forwarded", c.Pos(rt.Pos()), "the collector helper's result is not returned as it is")
+					}
+				}
+			}
+		}
+		for _, rt := range returnsOf(cf) {
 			if !isNilConst(rt.Results[1]) {
 				continue
 			}
@@ -1410,7 +1470,7 @@ func checkC09(c *Ctx, r *Report, tier string) {
 		r.Check(okApp, "C09.R4", fn, "merge", c.Pos(sel.Pos()), "every received partial result is appended to the list that is sorted, truncated and returned")
 		// R5: error arm returns the received error
 		okErr := false
-		for _, rt := range returnsOf(f) {
+		for _, rt := range returnsOf(cf) {
 			if ex, ok := rt.Results[1].(*ssa.Extract); ok && ex.Tuple == ssa.Value(sel) {
 				okErr = true
 			}
